@@ -96,6 +96,31 @@ package crypto
 //   round trip (C06): if the reader holds the encoding of any payload rtP() (an arbitrary constant) under this key (an
 //   ordinary key, rkey()) and counter, the whole payload comes out and the counter advances by its number of frames
 //@   ensures roundtrip: old(seq(s.decryptKey)) == rkey() && old(stream(r)) == enc_suf(rkey(), old(s.decryptCount), rtP(), 0, (len(rtP()) + 1023) / 1024) ==> err == nil && stream(out) == rtP() && s.decryptCount == old(s.decryptCount) + (len(rtP()) + 1023) / 1024
+// lemma at the start of an iteration (proved there, then used): under the round-trip premise what is left to read is either
+// nothing (all frames consumed) or begins with a whole frame - at least 2 + 16 bytes - so none of the three reads can fail
+//@   let rtN = (len(rtP()) + 1023) / 1024
+//@   assert enough before Read#1: old(seq(s.decryptKey)) == rkey() && old(stream(r)) == enc_suf(rkey(), old(s.decryptCount), rtP(), 0, rtN) ==> suf_mark(rkey(), old(s.decryptCount), rtP(), s.decryptCount - old(s.decryptCount), rtN) && ((s.decryptCount - old(s.decryptCount) == rtN && stream(r) == empty()) || (s.decryptCount - old(s.decryptCount) < rtN && len(stream(r)) >= 18))
+// stepwise lemmas (each proved at its program point, then used by the next): under the round-trip premise, with j0 the
+// number of frames accepted so far and Q the chunk number j0 of rtP(), what is left to read is
+//   before the 1st read of an iteration:  le16(|Q|) | seal(Q) | tag(Q) | frames j0+1..   (or nothing when j0 = N)
+//   before the 2nd:                       seal(Q) | tag(Q) | frames j0+1..               and length = |Q|
+//   before the 3rd:                       tag(Q) | frames j0+1..                         and b = seal(Q)
+//   before the frame is opened:           frames j0+1..                                  and mac = tag(Q)
+//@   let rtPrem = old(seq(s.decryptKey)) == rkey() && old(stream(r)) == enc_suf(rkey(), old(s.decryptCount), rtP(), 0, rtN)
+//@   let rtJ0 = s.decryptCount - old(s.decryptCount)
+//@   let rtQ0 = sub(rtP(), 1024 * rtJ0, ite(1024 * rtJ0 + 1024 <= len(rtP()), 1024 * rtJ0 + 1024, len(rtP())))
+//@   let rtSeal0 = aead_seal(rkey(), le64(old(s.decryptCount) + rtJ0), rtQ0, le16(len(rtQ0)))
+//@   let rtTag0 = aead_tag(rkey(), le64(old(s.decryptCount) + rtJ0), rtQ0, le16(len(rtQ0)))
+//@   let rtRest0 = enc_suf(rkey(), old(s.decryptCount), rtP(), rtJ0 + 1, rtN)
+//@   assert whole before Read#1: rtPrem && rtJ0 < rtN ==> stream(r) == cat(le16(len(rtQ0)), cat(rtSeal0, cat(rtTag0, rtRest0))) && 0 <= len(rtQ0) && len(rtQ0) <= 1024 && (len(rtQ0) < 1024 ==> rtJ0 + 1 == rtN)
+//@   assert afterLen before Read#2: rtPrem ==> rtJ0 < rtN && length == len(rtQ0) && stream(r) == cat(rtSeal0, cat(rtTag0, rtRest0)) && len(rtQ0) <= 1024 && (len(rtQ0) < 1024 ==> rtJ0 + 1 == rtN)
+//@   assert afterBody before Read#3: rtPrem ==> rtJ0 < rtN && length == len(rtQ0) && seq(b) == rtSeal0 && stream(r) == cat(rtTag0, rtRest0) && len(rtQ0) <= 1024 && (len(rtQ0) < 1024 ==> rtJ0 + 1 == rtN)
+//@   assert afterMac before PutUint64#1: rtPrem ==> rtJ0 < rtN && length == len(rtQ0) && seq(b) == rtSeal0 && seq(mac) == rtTag0 && stream(r) == rtRest0 && stream(addr(buf)) == sub(rtP(), 0, 1024 * rtJ0) && len(rtQ0) <= 1024 && (len(rtQ0) < 1024 ==> rtJ0 + 1 == rtN)
+//@   let rtJ = s.decryptCount - old(s.decryptCount) - 1
+//@   let rtChunk = sub(rtP(), 1024 * rtJ, ite(1024 * rtJ + 1024 <= len(rtP()), 1024 * rtJ + 1024, len(rtP())))
+//@   assert parts before DecryptAndVerify#1: rtPrem ==> 0 <= rtJ && rtJ < rtN && length == len(rtChunk) && seq(b) == aead_seal(rkey(), le64(old(s.decryptCount) + rtJ), rtChunk, le16(len(rtChunk))) && seq(mac) == aead_tag(rkey(), le64(old(s.decryptCount) + rtJ), rtChunk, le16(len(rtChunk))) && stream(r) == enc_suf(rkey(), old(s.decryptCount), rtP(), rtJ + 1, rtN) && stream(addr(buf)) == sub(rtP(), 0, 1024 * rtJ) && len(rtChunk) <= 1024 && (len(rtChunk) < 1024 ==> rtJ + 1 == rtN)
+// third lemma, before the plaintext is appended: it is that chunk
+//@   assert plain before Write#1: rtPrem ==> seq(decrypted) == rtChunk && stream(addr(buf)) == sub(rtP(), 0, 1024 * rtJ)
 //@   loop 0
 //@     invariant rt: old(seq(s.decryptKey)) == rkey() && old(stream(r)) == enc_suf(rkey(), old(s.decryptCount), rtP(), 0, (len(rtP()) + 1023) / 1024) ==> s.decryptCount - old(s.decryptCount) <= (len(rtP()) + 1023) / 1024 && stream(r) == enc_suf(rkey(), old(s.decryptCount), rtP(), s.decryptCount - old(s.decryptCount), (len(rtP()) + 1023) / 1024) && stream(addr(buf)) == sub(rtP(), 0, ite(1024 * (s.decryptCount - old(s.decryptCount)) <= len(rtP()), 1024 * (s.decryptCount - old(s.decryptCount)), len(rtP()))) && suf_mark(rkey(), old(s.decryptCount), rtP(), s.decryptCount - old(s.decryptCount), (len(rtP()) + 1023) / 1024)
 //@     invariant key: seq(s.decryptKey) == old(seq(s.decryptKey)) && s.decryptCount >= old(s.decryptCount)
